@@ -12,7 +12,7 @@ Open Scope Z_scope.
 (* ---------------- Outcome: which observations count, what runs in which order ---------------- *)
 (* loop body: 1 = p.add(observation), 2 = c.add(observation) *)
 Lemma gen_outcome_obs_body : forall invalid : bool,
-  g_outcome_obs_body invalid = if invalid then ([], Cont) else ([1; 2], Fall).
+  g_outcome_obs_body invalid = if invalid then ([], Fall) else ([1; 2], Fall).
 Proof. intros [|]; reflexivity. Qed.
 
 (* the model's valid_obs_list keeps exactly the observations for which the loop body reaches p.add / c.add *)
@@ -80,7 +80,7 @@ Lemma gen_cbp_add_body : forall present : bool,
 Proof. intros [|]; reflexivity. Qed.
 
 (* getLatestQuorumBlock, loop body: the model's lqb_step (repaired variant) is its interpretation
-   (1 = mostRecent := block; Cont = zero-hash key skipped) *)
+   (1 = mostRecent := block; Fall = zero-hash key skipped) *)
 Lemma gen_cbp_lqb_body : forall thr most b c,
   lqb_step true thr most (b, c) =
   match g_cbp_lqb_body (Z.of_N (bk_hash b)) 0 (Z.of_nat c) (Z.of_nat thr) (Z.of_N (bk_hash most))
@@ -111,7 +111,7 @@ Definition has_ext (p : proposal) : bool := match t_ext (p_trig p) with Some _ =
 Lemma gen_cbp_new_body : forall qb agreed hist added p t,
   new_props qb agreed hist added (p :: t) =
   match g_cbp_new_body (prop_exists hist p) (perf_exists agreed p) (memN (p_wid p) added) (has_ext p) with
-  | ([], Cont) => new_props qb agreed hist added t
+  | ([], Fall) => new_props qb agreed hist added t
   | ([1; 2; 3; 4; 5; 6], Fall) | ([1; 2; 3; 5; 6], Fall) => restamp qb p :: new_props qb agreed hist (p_wid p :: added) t
   | _ => []
   end.
